@@ -330,6 +330,9 @@ class Specifier(BaseSpecifier):
 
     @property
     def _canonical_spec(self) -> tuple[str, str]:
+        if self._spec[0] == "===":
+            # Arbitrary equality compares strings, so nothing may be normalized.
+            return self._spec
         canonical_version = canonicalize_version(
             self._spec[1],
             strip_trailing_zero=(self._spec[0] != "~="),
